@@ -111,6 +111,10 @@ def scan_assumptions(spec):
         for c in con.clauses:
             if c.kind == 'trusted':
                 out.append('trusted contract (not verified): %s -- %s' % (tgt, c.extra.get('arg', '')))
+            if c.kind == 'iterates':
+                out.append('assumed higher-order contract (used by callers, not proved): %s iterates %s' % (tgt, c.extra.get('arg', '')))
+            if c.extra.get('assumed'):
+                out.append('assumed clause (used by callers, not proved): %s %s' % (tgt, c.label or c.kind))
     return out
 
 
